@@ -239,6 +239,30 @@ def log_family(tier, seed):
                 msgs.append('raised %s: %s' % (type(e).__name__, e))
             if msgs:
                 fails.append({'obligation': 'log.read.post', 'key': key, 'input': key, 'detail': '; '.join(msgs[:3])})
+        # a float column for which the LAST run happens to print whole numbers only (a thermostat at 0, a counter-like quantity): flattening keeps the printed values of the
+        # earlier runs, fractional parts included, whichever run is preferred
+        for banner in ('new', 'old'):
+            evals += 1
+            nontriv += 1
+            head = 'Per MPI rank memory allocation (min/avg/max) = 3.1 | 3.1 | 3.1 Mbytes' if banner == 'new' else 'Memory usage per processor = 2.7 Mbytes'
+            text = ('LAMMPS (29 Oct 2020)\n' + head + '\nStep Temp PotEng \n       0   300.500000    -4.250000\n     100   310.250000    -4.500000\n     200   320.750000    -4.750000\n'
+                    'Loop time of 0.0123 on 1 procs for 200 steps with 4 atoms\n\n' + head + '\nStep Temp PotEng \n     200   0    -4.750000\n     300   0    -5.000000\n'
+                    'Loop time of 0.0123 on 1 procs for 100 steps with 4 atoms\n\nTotal wall time: 0:00:00\n')
+            want = {'first': [[0, 300.5, -4.25], [100, 310.25, -4.5], [200, 320.75, -4.75], [300, 0.0, -5.0]],
+                    'last': [[0, 300.5, -4.25], [100, 310.25, -4.5], [200, 0.0, -4.75], [300, 0.0, -5.0]],
+                    'all': [[0, 300.5, -4.25], [100, 310.25, -4.5], [200, 320.75, -4.75], [200, 0.0, -4.75], [300, 0.0, -5.0]]}
+            msgs = []
+            try:
+                lg = am.lammps.Log(text)
+                for style in ('first', 'last', 'all'):
+                    got = lg.flatten(style).thermo
+                    w = np.array(want[style], dtype=float)
+                    if list(got.columns) != ['Step', 'Temp', 'PotEng'] or got.shape != w.shape or not np.allclose(got.values.astype(float), w, atol=1e-9):
+                        msgs.append("flatten(%r) of a log whose last run prints whole numbers in a float column: Temp %r, printed values %r" % (style, got.Temp.tolist() if 'Temp' in got else None, w[:, 1].tolist()))
+            except Exception as e:
+                msgs.append('raised %s: %s' % (type(e).__name__, e))
+            if msgs:
+                fails.append({'obligation': 'log.read.post', 'key': 'whole numbers in the last run,banner=%s' % banner, 'input': text, 'detail': '; '.join(msgs[:2])})
     finally:
         shutil.rmtree(tmpd, ignore_errors=True)
     seen = {}
